@@ -29,8 +29,11 @@ theorem translation_complete : unsupported = [] := rfl
 @[simp] theorem lk_ppm : evalE.lookup' "processPendingMessage" prog = some fn_partition_processPendingMessage := by simp [prog, gomini]
 @[simp] theorem lk_sendAck : evalE.lookup' "sendAck" prog = some fn_partition_sendAck := by simp [prog, gomini]
 @[simp] theorem lk_epp : evalE.lookup' "ensurePublishPreconditions" prog = some fn_apiServer_ensurePublishPreconditions := by simp [prog, gomini]
-@[simp] theorem lk_other (f : String) (h1 : f ≠ "processPendingMessage") (h2 : f ≠ "sendAck") (h3 : f ≠ "ensurePublishPreconditions") :
-    evalE.lookup' f prog = none := by simp [prog, gomini, h1, h2, h3]
+@[simp] theorem lk_nack : evalE.lookup' "sendTooLargeNack" prog = some fn_partition_sendTooLargeNack := by simp [prog, gomini]
+@[simp] theorem lk_SetLeader : evalE.lookup' "SetLeader" prog = some fn_partition_SetLeader := by simp [prog, gomini]
+@[simp] theorem lk_other (f : String) (h1 : f ≠ "processPendingMessage") (h2 : f ≠ "sendAck") (h3 : f ≠ "ensurePublishPreconditions")
+    (h4 : f ≠ "sendTooLargeNack") (h5 : f ≠ "SetLeader") :
+    evalE.lookup' f prog = none := by simp [prog, gomini, h1, h2, h3, h4, h5]
 
 inductive Policy where | leader | all | none
   deriving DecidableEq, Repr
@@ -109,5 +112,48 @@ theorem go_ensurePublishPreconditions (stream partition readonly occ : Bool) (po
             else if occ ∧ policy = .none then some (.int 1) else none) := by
   cases stream <;> cases partition <;> cases readonly <;> cases occ <;> cases policy <;>
     simp [runG, fn_apiServer_ensurePublishPreconditions, gomini, codeOf, preExt, encReqP, Policy.code, binInt, truthy, getField, lookup, builtin]
+
+/-! ### the TOO_LARGE nack, and the leader-epoch fence of `SetLeader` -/
+
+/-- (inbox and error code of every ack published) -/
+def nackView : R Out → Option (List (Val × Option Val × Option Val))
+  | .ok o => some ((o.eff.filter fun e => e.1 = "proto.MarshalAck").map fun e => match e.2 with
+      | [.struct fs] => ((lookup "AckInbox" fs).getD .nil, lookup "AckError" fs, lookup "CorrelationId" fs)
+      | _ => (.nil, none, none))
+  | _ => none
+
+set_option maxRecDepth 8000 in
+set_option maxHeartbeats 2000000 in
+/-- a message beyond the replication limit is answered - when it asked for an answer - by exactly one ack that carries the error
+TOO_LARGE (3), the message's correlation id and goes to its ack inbox; without an inbox nothing is sent -/
+theorem go_sendTooLargeNack (policy : Policy) (inbox cid : String) :
+    nackView (runG prog (ackExt true) 30 "sendTooLargeNack" (some (encPartA 3)) [encMsg policy inbox cid] []) =
+      some (if inbox = "" then [] else [(.str inbox, some (.int 3), some (.str cid))]) := by
+  by_cases h : inbox = "" <;>
+    simp [runG, fn_partition_sendTooLargeNack, gomini, nackView, ackExt, encPartA, encMsg, truthy, getField, lookup, builtin, h]
+
+def encPartL (leader : String) (epoch : Int) (recovered paused : Bool) : Val :=
+  .struct [("Leader", .str leader), ("LeaderEpoch", .int epoch), ("recovered", .bool recovered), ("paused", .bool paused)]
+
+/-- (refused?, leader and epoch afterwards, was the leader / follower loop started) -/
+def leaderView : R Out → Option (Bool × Option Val × Option Val × Bool)
+  | .ok o => some (match o.rets with | [.str _] => true | _ => false,
+      match o.recv with | some (.struct fs) => lookup "Leader" fs | _ => none,
+      match o.recv with | some (.struct fs) => lookup "LeaderEpoch" fs | _ => none,
+      o.eff.any fun e => e.1 = "startLeadingOrFollowing")
+  | _ => none
+
+set_option maxRecDepth 8000 in
+set_option maxHeartbeats 2000000 in
+/-- `SetLeader`: a leader epoch below the partition's is refused and changes nothing (leader epochs never decrease); otherwise
+leader and epoch are taken over, and the leader / follower loops are started unless the partition is being recovered or is paused -/
+theorem go_SetLeader (cur : String) (curEpoch : Int) (recovered paused : Bool) (leader : String) (epoch : Int) :
+    leaderView (runG prog noExt 30 "SetLeader" (some (encPartL cur curEpoch recovered paused)) [.str leader, .int epoch] []) =
+      some (if epoch < curEpoch then (true, some (.str cur), some (.int curEpoch), false)
+            else (false, some (.str leader), some (.int epoch), !(recovered || paused))) := by
+  by_cases h : epoch < curEpoch
+  · simp [runG, fn_partition_SetLeader, gomini, leaderView, encPartL, binInt, truthy, getField, lookup, builtin, h]
+  · cases recovered <;> cases paused <;>
+      simp [runG, fn_partition_SetLeader, gomini, leaderView, encPartL, binInt, truthy, getField, setField, update, lookup, builtin, assignTo, h, noExt]
 
 end Liftbridge.Props.GoAck
